@@ -847,6 +847,16 @@ theorem bshapeEq_ones (s : List Nat) : bshapeEq s (List.replicate s.length 1) = 
 theorem broadcastShape_nil_right (s : List Nat) : broadcastShape s [] = .ok s := by
   simp [broadcastShape, padL, bshapeEq_ones]
 
+theorem bshapeEq_ones_left (s : List Nat) : bshapeEq (List.replicate s.length 1) s = some s := by
+  induction s with
+  | nil => rfl
+  | cons d s ih =>
+    simp only [List.length_cons, List.replicate_succ, bshapeEq, ih]
+    by_cases h : d = 1 <;> simp [bdim, h, eq_comm]
+
+theorem broadcastShape_nil_left (s : List Nat) : broadcastShape [] s = .ok s := by
+  simp [broadcastShape, padL, bshapeEq_ones_left]
+
 theorem bidx_nil (idx : List Nat) : bidx [] idx = [] := by simp [bidx]
 
 section cbuild
@@ -860,6 +870,38 @@ theorem centry_build {s idx : List Nat} (f : List Nat → α) (hv : Valid s idx)
   rw [at_build _ (by simp [hv]), at_build _ (by simp [hv])]
 
 end cbuild
+
+section planes
+variable {α : Type} [Zero α]
+
+/-- a complex tensor `(2 :: s)` combined (broadcast) with a real tensor of its tensor shape `s` (`z / scale`,
+`conj(z) / denominator`): both planes are combined entrywise with the real tensor -/
+theorem bop_planes (f : α → α → α) {z sc : Tensor α} {s : List Nat} (hz : IsCplx z s) (hs : sc.shape = s) :
+    ∃ w, bop f z sc = .ok w ∧ IsCplx w s ∧
+      ∀ idx, Valid s idx → centry w idx = (f (centry z idx).1 (sc.at idx), f (centry z idx).2 (sc.at idx)) := by
+  rw [bop_eq f z sc (r := 2 :: s) (by rw [hz.1, hs]; exact broadcastShape_cons_tail 2 s)]
+  refine ⟨_, rfl, isCplx_build _ _, fun idx hv => ?_⟩
+  have hv0 : Valid (2 :: s) (0 :: idx) := by simp [hv]
+  have hv1 : Valid (2 :: s) (1 :: idx) := by simp [hv]
+  rw [centry_build _ hv]
+  simp only [hz.1, hs, bidx_self hv0, bidx_self hv1, bidx_tail _ hv]
+  rfl
+
+/-- the two planes of a complex tensor combined entrywise (`torch.hypot(real x, imag x)`, `torch.max(|re|, |im|)`) -/
+theorem zip_planes (f : α → α → α) {x : Tensor α} {s : List Nat} (hx : IsCplx x s) :
+    ((reT x s).zip f (imT x s)).shape = s ∧ WF ((reT x s).zip f (imT x s)) ∧
+    ∀ idx, Valid s idx → ((reT x s).zip f (imT x s)).at idx = f (centry x idx).1 (centry x idx).2 := by
+  refine ⟨rfl, wf_zip f (reT x s) (imT x s) rfl (reT_wf hx) (imT_wf hx), fun idx hv => ?_⟩
+  rw [at_zip f (reT x s) (imT x s) rfl (reT_wf hx) (imT_wf hx) (by simpa using hv), reT_at hx hv, imT_at hx hv]
+
+/-- entrywise map of a complex tensor (`x / scale` with a 0-d `scale`) -/
+theorem map_cplx (f : α → α) {x : Tensor α} {s : List Nat} (hx : IsCplx x s) :
+    IsCplx (x.map f) s ∧ ∀ idx, Valid s idx → centry (x.map f) idx = (f (centry x idx).1, f (centry x idx).2) := by
+  refine ⟨⟨hx.1, wf_map _ _ hx.2⟩, fun idx hv => ?_⟩
+  simp only [centry]
+  rw [at_map f x hx.2 (by rw [hx.1]; simp [hv]), at_map f x hx.2 (by rw [hx.1]; simp [hv])]
+
+end planes
 
 /-! ### decoding into ℂ -/
 
@@ -949,19 +991,131 @@ theorem dec_expC (z : C ℝ) : dec (expC z) = Complex.exp (dec z) := by
   · simp [expC, Complex.exp_re]
   · simp [expC, Complex.exp_im]
 
+theorem dec_one_add_expC (z : C ℝ) : dec (1 + (expC z).1, (expC z).2) = 1 + Complex.exp (dec z) := by
+  rw [← dec_expC]; apply Complex.ext <;> simp
+
+/-- the logistic function as coded after F17_sigmoid (`1/(1+e^{-z})` for `Re z > 0`, `e^z/(1+e^z)` otherwise) is
+`e^z / (1 + e^z)` wherever that is defined -/
 theorem dec_sigC (z : C ℝ) (h : 1 + Complex.exp (dec z) ≠ 0) :
     dec (sigC z) = Complex.exp (dec z) / (1 + Complex.exp (dec z)) := by
-  have h1 : dec (1 + (expC z).1, (expC z).2) = 1 + Complex.exp (dec z) := by
-    rw [← dec_expC]; apply Complex.ext <;> simp
   unfold sigC
-  simp only
-  rw [dec_div _ _ (by rw [h1]; exact h), h1, dec_expC]
+  split_ifs with hpos
+  · have hne : Complex.exp (dec z) ≠ 0 := Complex.exp_ne_zero _
+    have h2 : 1 + Complex.exp (dec (C.neg z)) ≠ 0 := by
+      rw [dec_neg, Complex.exp_neg]
+      intro h0
+      apply h
+      have : (1 + (Complex.exp (dec z))⁻¹) * Complex.exp (dec z) = 0 := by rw [h0, zero_mul]
+      rw [add_mul, one_mul, inv_mul_cancel₀ hne] at this
+      rw [add_comm]; exact this
+    simp only
+    rw [dec_div _ _ (by rw [dec_one_add_expC]; exact h2), dec_one_add_expC, dec_neg, Complex.exp_neg]
+    have h1 : dec (C.one : C ℝ) = 1 := by apply Complex.ext <;> simp [C.one]
+    rw [h1]
+    have h3 : 1 + (Complex.exp (dec z))⁻¹ = (1 + Complex.exp (dec z)) / Complex.exp (dec z) := by
+      field_simp; ring
+    rw [h3, one_div, inv_div]
+  · simp only
+    rw [dec_div _ _ (by rw [dec_one_add_expC]; exact h), dec_one_add_expC, dec_expC]
+
+/-- the exponential the repaired sigmoid forms has modulus at most 1 (it cannot overflow) -/
+theorem sigC_exp_bounded (z : C ℝ) :
+    ‖dec (expC (if 0 < z.1 then C.neg z else z))‖ ≤ 1 := by
+  rw [dec_expC, Complex.norm_exp]
+  split_ifs with h
+  · rw [dec_neg]; simp only [Complex.neg_re, dec_re]; rw [Real.exp_le_one_iff]; linarith
+  · simp only [dec_re]; rw [Real.exp_le_one_iff]; linarith
 
 theorem abs_code (z : C ℝ) : Real.sqrt ((C.mul z (C.conj z)).1) = ‖dec z‖ := by
   rw [Complex.norm_def]
   congr 1
   simp [C.mul, C.conj, Complex.normSq_apply]
 
+
+/-- `hypot` (the scaled formula of the model) is `√(a² + b²)` -/
+theorem hypot_eq (a b : ℝ) : hypot a b = Real.sqrt (a * a + b * b) := by
+  unfold hypot
+  simp only [transc_max, transc_abs, transc_sqrt]
+  split_ifs with hm
+  · have hm0 : max |a| |b| ≠ 0 := ne_of_gt hm
+    set m := max |a| |b| with hmdef
+    have h1 : m * Real.sqrt (a / m * (a / m) + b / m * (b / m))
+        = Real.sqrt (m * m) * Real.sqrt (a / m * (a / m) + b / m * (b / m)) := by
+      rw [Real.sqrt_mul_self hm.le]
+    rw [h1, ← Real.sqrt_mul (mul_self_nonneg _)]
+    congr 1
+    field_simp
+  · have h0 : max |a| |b| = 0 := le_antisymm (not_lt.1 hm) (le_trans (abs_nonneg a) (le_max_left _ _))
+    have ha : a = 0 := abs_eq_zero.1 (le_antisymm (h0 ▸ le_max_left |a| |b|) (abs_nonneg a))
+    have hb : b = 0 := abs_eq_zero.1 (le_antisymm (h0 ▸ le_max_right |a| |b|) (abs_nonneg b))
+    rw [h0, ha, hb]; simp
+
+theorem hypot_eq_norm (z : C ℝ) : hypot z.1 z.2 = ‖dec z‖ := by
+  rw [hypot_eq, Complex.norm_def, Complex.normSq_apply]; rfl
+
+/-- the larger component of a non-zero complex number is positive -/
+theorem cscale_pos {z : C ℝ} (h : dec z ≠ 0) : 0 < max |z.1| |z.2| := by
+  rcases lt_or_eq_of_le (le_trans (abs_nonneg z.1) (le_max_left |z.1| |z.2|)) with h1 | h1
+  · exact h1
+  · exfalso; apply h
+    have ha : z.1 = 0 := abs_eq_zero.1 (le_antisymm (h1 ▸ le_max_left |z.1| |z.2|) (abs_nonneg _))
+    have hb : z.2 = 0 := abs_eq_zero.1 (le_antisymm (h1 ▸ le_max_right |z.1| |z.2|) (abs_nonneg _))
+    apply Complex.ext <;> simp [ha, hb]
+
+/-- the components scaled by the larger one lie in `[-1, 1]` and the sum of their squares in `[1, 2]`: nothing the
+repaired division / modulus forms from them can overflow or underflow -/
+theorem scaled_bounds (a b : ℝ) (hm : 0 < max |a| |b|) :
+    abs (a / max |a| |b|) ≤ 1 ∧ abs (b / max |a| |b|) ≤ 1 ∧
+    1 ≤ (a / max |a| |b|) * (a / max |a| |b|) + (b / max |a| |b|) * (b / max |a| |b|) ∧
+    (a / max |a| |b|) * (a / max |a| |b|) + (b / max |a| |b|) * (b / max |a| |b|) ≤ 2 := by
+  set m := max |a| |b| with hmdef
+  have ha : |a / m| ≤ 1 := by rw [abs_div, abs_of_pos hm, div_le_one hm]; exact le_max_left _ _
+  have hb : |b / m| ≤ 1 := by rw [abs_div, abs_of_pos hm, div_le_one hm]; exact le_max_right _ _
+  have hsqa : (a / m) * (a / m) = |a / m| * |a / m| := (abs_mul_abs_self _).symm
+  have hsqb : (b / m) * (b / m) = |b / m| * |b / m| := (abs_mul_abs_self _).symm
+  refine ⟨ha, hb, ?_, ?_⟩
+  · rcases max_choice |a| |b| with h | h
+    · have : |a / m| = 1 := by rw [abs_div, abs_of_pos hm, hmdef, h, div_self]; rw [← h]; exact ne_of_gt hm
+      rw [hsqa, this]; nlinarith [mul_self_nonneg (b / m)]
+    · have : |b / m| = 1 := by rw [abs_div, abs_of_pos hm, hmdef, h, div_self]; rw [← h]; exact ne_of_gt hm
+      rw [hsqb, this]; nlinarith [mul_self_nonneg (a / m)]
+  · rw [hsqa, hsqb]
+    nlinarith [abs_nonneg (a / m), abs_nonneg (b / m)]
+
+/-- the inverse as the repaired code computes it: `w = z/s`, `conj(w) / Re(w·conj w) / s` (any non-zero scale `s`) -/
+theorem dec_inv_scaled (z : C ℝ) (s : ℝ) (hs : s ≠ 0) :
+    dec ((C.conj (z.1 / s, z.2 / s)).1 / (C.mul (z.1 / s, z.2 / s) (C.conj (z.1 / s, z.2 / s))).1 / s,
+         (C.conj (z.1 / s, z.2 / s)).2 / (C.mul (z.1 / s, z.2 / s) (C.conj (z.1 / s, z.2 / s))).1 / s) = (dec z)⁻¹ := by
+  have h := dec_inv_code (z.1 / s, z.2 / s)
+  have hz : dec (z.1 / s, z.2 / s) = dec z / (s : ℂ) := by
+    apply Complex.ext <;> simp [Complex.div_re, Complex.div_im, Complex.normSq_apply] <;> field_simp
+  have hl : ∀ p : C ℝ, dec (p.1 / s, p.2 / s) = dec p / (s : ℂ) := by
+    intro p
+    apply Complex.ext <;> simp [Complex.div_re, Complex.div_im, Complex.normSq_apply] <;> field_simp
+  have := hl ((C.conj (z.1 / s, z.2 / s)).1 / (C.mul (z.1 / s, z.2 / s) (C.conj (z.1 / s, z.2 / s))).1,
+    (C.conj (z.1 / s, z.2 / s)).2 / (C.mul (z.1 / s, z.2 / s) (C.conj (z.1 / s, z.2 / s))).1)
+  simp only at this
+  rw [this, h, hz]
+  have hsc : (s : ℂ) ≠ 0 := by exact_mod_cast hs
+  by_cases h0 : dec z = 0
+  · simp [h0]
+  · field_simp
+
+/-- the quotient as the repaired code computes it: `(x/s)·conj(y/s)` divided by `hypot(y/s)²` (any non-zero `s`) -/
+theorem dec_div_scaled (a b : C ℝ) (s : ℝ) (hs : s ≠ 0) (hb : dec b ≠ 0) :
+    dec ((C.mul (a.1 / s, a.2 / s) (C.conj (b.1 / s, b.2 / s))).1 / (hypot (b.1 / s) (b.2 / s) * hypot (b.1 / s) (b.2 / s)),
+         (C.mul (a.1 / s, a.2 / s) (C.conj (b.1 / s, b.2 / s))).2 / (hypot (b.1 / s) (b.2 / s) * hypot (b.1 / s) (b.2 / s)))
+      = dec a / dec b := by
+  have hl : ∀ p : C ℝ, dec (p.1 / s, p.2 / s) = dec p / (s : ℂ) := by
+    intro p
+    apply Complex.ext <;> simp [Complex.div_re, Complex.div_im, Complex.normSq_apply] <;> field_simp
+  have hsc : (s : ℂ) ≠ 0 := by exact_mod_cast hs
+  have hb' : dec (b.1 / s, b.2 / s) ≠ 0 := by rw [hl]; exact div_ne_zero hb hsc
+  have h := dec_div_code (a.1 / s, a.2 / s) (b.1 / s, b.2 / s) hb'
+  rw [abs_code, ← hypot_eq_norm] at h
+  simp only at h
+  rw [h, hl, hl]
+  field_simp
 
 /-! ### broadcasting: the right-aligned specification -/
 
@@ -1186,5 +1340,15 @@ theorem scalarMult_shape {x y z : Tensor α} {rs : List Nat} (h : resultShape x 
                   · cases hz
 
 end outshape
+
+theorem flatMap_singletons (l : List ℕ) : List.flatMap (fun i => [[i]]) l = l.map (fun i => [i]) := by
+  induction l with
+  | nil => rfl
+  | cons x l ih => simp [List.flatMap_cons, ih]
+
+theorem range_map_sum (F : ℕ → ℂ) (n : ℕ) : ((List.range n).map F).sum = ∑ i : Fin n, F i.val := by
+  induction n with
+  | zero => simp
+  | succ n ih => rw [List.range_succ, List.map_append, List.sum_append, ih, Fin.sum_univ_castSucc]; simp
 
 end QV.Cplx
